@@ -536,7 +536,12 @@ def m_fragment_first_segment(d):
         return False
     if t.get("segkind") == "Move":
         return False
-    return d["observed"] == "None" and t.get("field") in ("start", "end")
+    if d["observed"] != "None":
+        return False
+    if t.get("field") == "start":
+        return True
+    # an end point of None only where a close / segment-completing z had no subpath start to return to
+    return t.get("field") == "end" and (t.get("segkind") == "Close" or "z" in s.lower())
 
 
 def m_arc_extreme_radii(d):
